@@ -246,6 +246,7 @@ type sut struct {
 	app   []int64          // writes in order of first application on the target (harness bookkeeping)
 	tw    int64
 	isW   map[int64]bool // source indexes that are accepted writes for H
+	bare  bool           // the source was restarted without its delta target / forwarder
 }
 
 func (s *sut) srcOwned() []uint16 {
@@ -313,6 +314,9 @@ func (s *sut) payload() []byte {
 	uid := []string{"u1", "u2"}[r.Intn(2)]
 	ch := []string{"ga", "gb"}[r.Intn(2)]
 	tok := fmt.Sprintf("t%d", r.Intn(1000))
+	if r.Intn(2) == 0 { // half of the writes meet on one key, so that order and repetition show
+		return fsm.EncodeUpsertUserCommand(metadb.User{UID: "u1", Token: tok})
+	}
 	switch r.Intn(9) {
 	case 0, 1:
 		return fsm.EncodeUpsertUserCommand(metadb.User{UID: uid, Token: tok, DeviceFlag: int64(r.Intn(3))})
@@ -610,6 +614,15 @@ func (s *sut) do(ev map[string]any) (out stepResult, viol string, infra error) {
 			return out, fmt.Sprintf("source ApplyBatch panicked: %v", pan), nil
 		}
 		res["err"] = aerr != nil
+	case "RestartBare":
+		if err := s.src.newSM(s.srcOwned()); err != nil {
+			return out, "", err
+		}
+		s.bare = true
+	case "Resupply":
+		s.src.sm.SetDeltaForwarder(s.forward)
+		s.src.sm.UpdateOutgoingDeltaTargets(map[uint16]multiraft.SlotID{hsH: tgtSlot})
+		s.bare = false
 	case "Restart":
 		var err error
 		if kit.Str(ev, "who") == "src" {
@@ -811,15 +824,23 @@ func (h *harness) drive(rec *kit.Recorder) {
 		case "delta", "switching":
 			sw := s.phase == "switching"
 			switch {
+			case s.bare && r < 55:
+				ev = kit.Ev("SrcApply", "ks", kinds(true), "lose", false)
+			case s.bare:
+				ev = kit.Ev("Resupply")
+			case sw && r >= 97:
+				ev = kit.Ev("RestartBare")
 			case sw && o.Fence != 0 && applied[o.Fence] && pendingAll && r < 30:
 				ev = kit.Ev("Switch")
 			case r < 30 && !sw, r < 8:
 				ev = kit.Ev("SrcApply", "ks", kinds(r%3 == 0), "lose", h.rng.Intn(3) == 0)
 			case r < 60 && len(fl) > 0:
 				ms := []any{pick(fl)}
-				if h.rng.Intn(3) == 0 {
+				used := map[int64]int{ms[0].(int64): 1}
+				for k := 0; k < 2 && h.rng.Intn(5) < 2; k++ {
 					j := pick(fl)
-					if j != ms[0].(int64) || s.chanM[j].copies >= 2 {
+					if used[j] < s.chanM[j].copies {
+						used[j]++
 						ms = append(ms, j)
 					}
 				}
